@@ -99,11 +99,9 @@ def _f08a_trigger(src):
     out = base.guarded(lambda: list(generate_tokens(src)))
     if out.kind != "tree":
         return False
-    mism = []
-    v = tokcheck.tiling_violations(src, out.value, mismatched_out=mism)
-    from .c08 import _f08a
-
-    return bool(v) and _f08a(out.value, mism)
+    mism, gaps = [], []
+    v = tokcheck.tiling_violations(src, out.value, mismatched_out=mism, gaps_out=gaps)
+    return bool(v) and tokcheck.pending_string_symptom(out.value, mism, gaps)
 
 
 def join_tokens(seq):
